@@ -10,6 +10,8 @@ member CALLED FROM THE MAIN CONTEXT, round 4), each followed by one loop pass.  
 process (failed TBOX_ASSERT, std::terminate) sets `aborted`; `step` is the identity from then on.
 The progress form of no-lost-wake-up is in Progress.lean (`C18_progress`), the C++ width of the
 semaphore count in SemWidth.lean (`C18_semw_*`, patches/C18-06..07).
+Round 5 (Props5.lean): Mutex::Locker scripts (`defineR`), the stack size of `create()` (`stack`, patches/C18-08), `resume`
+inside a routine; Progress.lean: nested critical sections under a global lock order, acyclic joins; Compact.lean: scale.
 The counterexample theorems are about `run initOrig …`, the model of the code as found.
 -/
 import TboxModel.C18.Trace
